@@ -22,7 +22,9 @@ LEVEL_TEXT = ("Coq theorems over an executable model of the labelled dense matri
               "with the group array as primary key, label-argument precedence of adjoin/insert/append/incorp, scalar-index wrap, the whole metadata "
               "pipeline of the two masked genotyping protocols, block slices of the square adjoin/append) are regenerated on every run "
               "(Gen/C03_Kernel.v), proved equal to the model's (reflexivity) and the partition/dispatch theorems are restated about them; "
-              "sessions: a history's continuation depends only on the state reached. "
+              "sessions: a history's continuation depends only on the state reached; the form of an index does not matter: a bare integer index of "
+              "delete/remove/insert/incorp is the one-element index list (and a 0-d array index of insert/incorp, which the source's guard lets through "
+              "unwrapped, is refuted: C03_zero_dim_insert_refuted). "
               "The model is tied to the code by evaluating whole operation histories inside Coq against the implementation's state after "
               "every step, plus an independent entity-tracing predicate")
 LEVEL_NOTE = ("trusted: Coq kernel + vm_compute; the hand-written model of numpy.take/delete/insert/append/concatenate/lexsort/unique "
@@ -44,13 +46,24 @@ RULE = ("case = (class, initial matrix given by entity ids per axis + which labe
         "passed as values, original of a copy; the last 4) is re-inspected after every later step (aliasing: in-place writes into shared arrays); derived "
         "counters (ntaxa/nvrnt/ntrait/nphase, mat_shape, mat_ndim) are observed after every step; 18 (120) histories with one axis of 129..300 entities "
         "(indices, group lengths and start/stop indices beyond 127 and 255) plus 4 (24) masked genotypings of 257..300 grouped variants; an entry-point audit "
-        "(inspect) fails the run when a public member or parameter of the 13 classes / 3 protocols is neither driven, observed nor listed in SKIPPED")
+        "(inspect) fails the run when a public member or parameter of the 13 classes / 3 protocols is neither driven, observed nor listed in SKIPPED; "
+        "index encodings: ~55% of the valid index arguments of every operation are handed over in another encoding than the plain Python value - int as a "
+        "numpy integer scalar (int8..int64, uint8..uint64, every width that holds the value and the axis length) or a 0-d array; list as tuple / range / "
+        "list of numpy scalars of mixed widths / ndarray of a non-default dtype; numpy bool mask as Python list or tuple of bools (delete/remove) - and the "
+        "model and the specification ignore the encoding (expected: the behaviour of the plain value); plus a systematic sweep, 15 short histories per "
+        "(class, labelled axis kind) (x6 thorough): every scalar width on insert|incorp and delete|remove, every list encoding and dtype, ranges that "
+        "differ from the slice of the same bounds (descending to 0, crossing 0, negative, step 2), every dtype / tuple / range / scalar list on "
+        "select and reorder, all axes >= 2 entities and blocks of 2 so that an unwrapped scalar, a mask read as integers or a narrow cast is visible; "
+        "not given because numpy itself rejects them: unsigned index arrays of more than one element and Python sequences of bools for numpy.insert, "
+        "lists mixing uint64 with signed scalars (promoted to float64), a tuple for reorder (`arr[tuple]` is a multi-axis index)")
 TRUSTED = ["numpy primitives are modelled (plan + gather) and compared with the implementation only on generated inputs",
            "label values are shipped as integer codes (names 't007' <-> 7, floats k/8 <-> k, bools <-> 0/1, None <-> -1)",
            "DenseBreedingValueMatrix cells are observed as unscale() rounded to the nearest integer when within 2^-20 relative",
            "harness/translate/c03_dispatch.py and c03_metareset.py (ast -> Coq tables, fail closed)",
            "harness/translate/c03_kernel.py (ast -> Gen/C03_Kernel.v: expressions via translate/pyexpr.py, statement patterns matched literally, fail closed)",
-           "copy steps are the identity of the model (not emitted as model steps; a copy that alters the observable state makes the case disagree)"]
+           "copy steps are the identity of the model (not emitted as model steps; a copy that alters the observable state makes the case disagree)",
+           "index encodings are not modelled: every encoding of an index is shipped to Coq as the plain value (OInt / OList / OMask); a 0-d array index of "
+           "insert/incorp on an inner axis (known finding) ends the part of the history evaluated in Coq, the step is judged by the predicate only"]
 ASSUMPTIONS = ["valid arguments: indices within range, one label array per field the matrix carries (name arrays may be absent: filled with None), "
                "operands share the entities of the other axes",
                "cells are integers (int8 0..2 for genotype matrices, exact in float64 otherwise); label codes are non-negative"]
@@ -350,19 +363,104 @@ MUT = {"append": "adjoin", "remove": "delete", "incorp": "insert"}
 NONMUT = {v: k for k, v in MUT.items()}
 INPLACE = {"append", "remove", "incorp", "reorder", "sort", "group", "ungroup"}
 
+# --- encodings of index arguments.  The SAME index (a Python int, a list of ints, a mask) can reach the library as a numpy
+# integer scalar of any width (what argmax / searchsorted / iteration over an array return), a 0-d array, a tuple, a range,
+# a list of numpy scalars, an integer ndarray of a non-default dtype, a numpy bool mask or a Python list / tuple of bools.
+# Neither the model nor the specification looks at the encoding: every encoding must behave like the plain Python value.
+INT_DTYPES = ["int8", "int16", "int32", "int64", "uint8", "uint16", "uint32", "uint64"]
+def fitting_dtypes(vals, n, signed_only=False):
+    """integer dtypes that hold every value and the axis length with slack (numpy adds the length to negative indices and
+    the running offsets to insertion positions in the dtype of the index array)"""
+    lo = min([0] + [int(x) for x in vals]); hi = max([int(n) + 8] + [int(x) for x in vals])
+    out = []
+    for dt in INT_DTYPES:
+        ii = numpy.iinfo(dt)
+        if signed_only and ii.min == 0: continue
+        if ii.min <= lo and hi <= ii.max: out.append(dt)
+    return out
+def _np_scalar(v, dt):
+    return numpy.dtype(dt).type(int(v))
+def _as_range(v):
+    v = [int(x) for x in v]
+    if not v: return range(0)
+    step = (v[1] - v[0]) if len(v) > 1 else 1
+    return range(v[0], v[-1] + (1 if step > 0 else -1), step)
+def is_progression(v):
+    v = [int(x) for x in v]
+    if not v or (len(v) > 1 and v[1] == v[0]): return False
+    return list(_as_range(v)) == v
+def _np_list(v, e):
+    """list of numpy integer scalars; the dtypes cycle through the fitting ones named in the encoding 'nplist:<a>,<b>,...'"""
+    dts = e.split(":", 1)[1].split(",")
+    return [_np_scalar(x, dts[i % len(dts)]) for i, x in enumerate(v)]
 def py_obj(o):
-    t = o["t"]
-    if t == "int": return int(o["v"])
+    t = o["t"]; e = o.get("e")
+    if t == "int":
+        if not e: return int(o["v"])
+        how, dt = e.split(":")
+        if how == "np": return _np_scalar(o["v"], dt)                  # numpy integer scalar
+        if how == "0d": return numpy.array(int(o["v"]), dtype=dt)       # 0-d integer array
+        raise ValueError(e)
     if t == "slice": return slice(*o["v"])
-    if t == "list": return [int(x) for x in o["v"]]
-    if t == "array": return numpy.array(o["v"], dtype="int64")
+    if t == "list":
+        if not e: return [int(x) for x in o["v"]]
+        if e == "tuple": return tuple(int(x) for x in o["v"])
+        if e == "range": return _as_range(o["v"])
+        if e.startswith("nplist:"): return _np_list(o["v"], e)
+        raise ValueError(e)
+    if t == "array": return numpy.array(o["v"], dtype=(e.split(":")[1] if e else "int64"))
     if t == "mask": return numpy.array(o["v"], dtype=bool)
-    if t == "lmask": return [bool(x) for x in o["v"]]
+    if t == "lmask": return tuple(bool(x) for x in o["v"]) if e == "tuple" else [bool(x) for x in o["v"]]
     raise ValueError(t)
 def py_idx(v, ik):
     if ik == "array": return numpy.array(v, dtype="int64")
+    if ik.startswith("array:"): return numpy.array(v, dtype=ik.split(":")[1])
     if ik == "tuple": return tuple(int(x) for x in v)
+    if ik == "range": return _as_range(v)
+    if ik.startswith("nplist:"): return _np_list(v, ik)
     return [int(x) for x in v]
+
+def _nplist_enc(r, dts):
+    """numpy promotes a list mixing uint64 with signed scalars to float64 (not an index any more): uint64 only among unsigned"""
+    pick = r.sample(dts, min(len(dts), 3))
+    if "uint64" in pick and any(not d.startswith("u") for d in pick):
+        pick = [d for d in pick if d != "uint64"]
+    return "nplist:" + ",".join(pick)
+def encode_obj(r, o, n, opname):
+    """choose (with the case PRNG) how the index argument `o` of delete/remove/insert/incorp on an axis of length n is handed over"""
+    t = o["t"]; v = o["v"]
+    ins = opname in ("insert", "incorp")
+    if r.random() < 0.45: return o
+    if t == "int":
+        dts = fitting_dtypes([v], n)
+        if dts: o["e"] = ("np:" if r.random() < 0.7 else "0d:") + r.choice(dts)
+    elif t in ("list", "array"):
+        # numpy.insert itself fails on an unsigned index array of more than one element (in-place `indices += offsets`)
+        dts = fitting_dtypes(v, n, signed_only=(ins and len(v) != 1))
+        ch = r.random()
+        if t == "array" or ch < 0.3:
+            if dts and v: o["t"] = "array"; o["e"] = "dt:" + r.choice(dts)
+        elif ch < 0.5: o["e"] = "tuple"
+        elif ch < 0.7 and is_progression(v): o["e"] = "range"
+        elif v:
+            if dts: o["e"] = _nplist_enc(r, dts)
+    elif t == "mask" and not ins:
+        # numpy.insert itself rejects a Python list / tuple of bools ('list' object has no attribute 'ndim'): masks for insertion stay ndarrays
+        ch = r.random()
+        if ch < 0.5: o["t"] = "lmask"
+        if ch < 0.2: o["e"] = "tuple"
+    elif t == "lmask" and r.random() < 0.4: o["e"] = "tuple"
+    return o
+def encode_ik(r, idx, n, opname, ik):
+    """index kind of select / reorder"""
+    if r.random() < 0.5 or not idx: return ik
+    dts = fitting_dtypes(idx, n)
+    ch = r.random()
+    if ch < 0.4 and dts: return "array:" + r.choice(dts)
+    if ch < 0.6 and is_progression(idx): return "range"
+    if ch < 0.85 and dts: return _nplist_enc(r, dts)
+    # reorder_<axis> documents an ndarray and indexes with `arr[indices]`: a tuple there is numpy's multi-axis index, not an index list
+    return "tuple" if opname == "select" else ik
 
 def operand_args(C, tab, opd, kind, ploidy, track=None):
     """-> (values, kwargs) for adjoin/insert/append/incorp"""
@@ -829,9 +927,12 @@ def deviation(C, S, T, op, main):
                 return "sqtt-drop", U
     if C["square"] and kind == "taxa" and k in ("insert", "incorp", "concat"):
         return "sq-insert", None
+    if zero_dim_inner(C, op):
+        return "0d-insert", None
     return None, None
 
-TAGS = {"sqtt-drop": "C03-squaretaxatrait-drops-labels", "sq-insert": "C03-square-insert-one-axis"}
+TAGS = {"sqtt-drop": "C03-squaretaxatrait-drops-labels", "sq-insert": "C03-square-insert-one-axis",
+        "0d-insert": "C03-zero-dim-index-insert-moveaxis"}
 
 def pred(case, out):
     """the property stated on the implementation's snapshots, by entity tracing with plain list operations"""
@@ -854,7 +955,7 @@ def pred(case, out):
         C1 = BY_PYNAME.get(main.get("cls"), C)
         spre = ""
         if op["k"] != "genotype" and is_terminal(C, op) and op.get("ax") in C["lkinds"]:
-            spre = "[sq-insert] "
+            spre = "[%s] " % terminal_tag(C, op)
         nb = len(bad)
         if "exc" not in main:
             for kk in C1["kinds"]:
@@ -1100,8 +1201,10 @@ class _Gen:
         if k == "select":
             op["idx"] = [r.randrange(-n, n) for _ in range(r.choice([1, 1, 2, 3, n, n + 1]))] if valid else [0, n]
             op["ik"] = self.idx_kind()
+            if valid: op["ik"] = encode_ik(r, op["idx"], n, "select", op["ik"])
         elif k in ("delete", "remove"):
             op["obj"] = self.del_obj(n, valid)
+            if valid: encode_obj(r, op["obj"], n, k)
         elif k in ("insert", "incorp"):
             if C["square"] and kind == "taxa":
                 kk = r.choice([1, n, n, r.choice([1, 2, 3])])
@@ -1111,6 +1214,7 @@ class _Gen:
             if valid:
                 pos, _ = insert_positions(n, op["obj"])
                 if len(pos) > 1 and kk != 1: kk = len(pos)
+                encode_obj(r, op["obj"], n, k)
             op["val"] = self.operand(S, kind, kk, valid or r.random() < 0.5)
         elif k in ("adjoin", "append"):
             op["val"] = self.operand(S, kind, r.choice([1, 1, 2, 3]), valid)
@@ -1124,6 +1228,7 @@ class _Gen:
             else:
                 op["idx"] = [r.randrange(-n, n) for _ in range(r.choice([1, n, n + 1]))]
             op["ik"] = r.choice(["array", "array", "list"])
+            if valid: op["ik"] = encode_ik(r, op["idx"], n, "reorder", op["ik"])
         elif k in ("sort", "lexsort"):
             have = [f for f in KINDS[kind]["fields"] if S["lab"][f] is not None]
             if have and r.random() < 0.4:
@@ -1145,11 +1250,21 @@ def rebase_like_impl(C, T, op):
         return U
     return T
 
-def is_terminal(C, op):
-    if op["k"] in ("genotype", "copy"): return False
+def zero_dim_inner(C, op):
+    """insert / incorp with a 0-d array index on an axis kind whose (first) array axis is not axis 0: known finding
+    C03-zero-dim-index-insert-moveaxis (the scalar-index guard `isinstance(obj, (int, numpy.integer))` does not see a 0-d array)"""
+    if op.get("k") not in ("insert", "incorp"): return False
+    o = op.get("obj") or {}
+    ax = kind_axes(C, op.get("ax"))
+    return o.get("t") == "int" and str(o.get("e", "")).startswith("0d:") and bool(ax) and min(ax) > 0
+def terminal_tag(C, op):
+    if op["k"] in ("genotype", "copy"): return None
     kind = op["ax"]
-    if C["square"] and kind == "taxa" and op["k"] in ("insert", "incorp", "concat"): return True
-    return False
+    if C["square"] and kind == "taxa" and op["k"] in ("insert", "incorp", "concat"): return "sq-insert"
+    if zero_dim_inner(C, op): return "0d-insert"
+    return None
+def is_terminal(C, op):
+    return terminal_tag(C, op) is not None
 
 def gen_history(rng, clsname, nops, tier):
     G = _Gen(rng, clsname, nops, tier)
@@ -1208,7 +1323,7 @@ def gen_geno_case(rng, nops):
     if rng.random() < 0.9: ops.append({"k": "group", "ax": "vrnt", "form": rng.choice(["s", "g"]), "gax": rng.choice([2, -1])})
     if present["taxa_grp"] and rng.random() < 0.5: ops.append({"k": "group", "ax": "taxa", "form": rng.choice(["s", "g"]), "gax": rng.choice([1, -2])})
     if rng.random() < 0.25 and nt > 1:
-        ops.append({"k": "remove", "ax": "taxa", "form": "s", "gax": 1, "obj": {"t": "int", "v": rng.randrange(-nt, nt)}})
+        ops.append({"k": "remove", "ax": "taxa", "form": "s", "gax": 1, "obj": encode_obj(rng, {"t": "int", "v": rng.randrange(-nt, nt)}, nt, "remove")})
     ops.append({"k": "genotype", "prot": rng.choice(["masked_phased", "masked_unphased", "masked_phased", "masked_unphased", "unphased"]),
                 "invert": rng.random() < 0.35})
     for op in ops:
@@ -1314,11 +1429,13 @@ def gen_big_case(rng, clsname, force=None):
     hi = lambda: rng.choice([n - 1, n - 2, 128, 127, -1, -n, rng.randrange(128, n), rng.randrange(-n, n)])
     t = rng.choice(["select", "delete", "remove", "sort", "lexsort", "copy", "adjoin", "append"] + (["genotype", "genotype"] if C.get("phased") and big == "vrnt" else []))
     if force: t = "genotype"
-    if t == "select": ops.append(dict(form(), k="select", idx=[hi() for _ in range(rng.choice([1, 3, 6]))], ik=rng.choice(["list", "array"])))
+    if t == "select":
+        idx = [hi() for _ in range(rng.choice([1, 3, 6]))]
+        ops.append(dict(form(), k="select", idx=idx, ik=encode_ik(rng, idx, n, "select", rng.choice(["list", "array"]))))
     elif t in ("delete", "remove"):
         obj = rng.choice([{"t": "int", "v": hi()}, {"t": "list", "v": [hi() for _ in range(3)]}, {"t": "mask", "v": [rng.random() < 0.5 for _ in range(n)]},
                           {"t": "slice", "v": [rng.choice([None, 100, 130]), rng.choice([None, 256, -1]), rng.choice([None, 2, 3])]}])
-        ops.append(dict(form(), k=t, obj=obj))
+        ops.append(dict(form(), k=t, obj=encode_obj(rng, obj, n, t)))
     elif t in ("sort", "lexsort"): ops.append(dict(form(), k=t, keys=None))
     elif t == "copy": ops.append({"k": "copy", "mode": rng.choice(COPY_MODES)})
     elif t in ("adjoin", "append"):
@@ -1334,6 +1451,132 @@ def gen_big_case(rng, clsname, force=None):
             S, _ = spec_step(Cc, G.tab, S, op)
         except Invalid:
             break
+    case["tab"] = G.tab
+    return case
+
+def range_list(r, n, top):
+    """an arithmetic progression (as a list) with values in [-n, top): ascending, descending down to 0 (the range's stop is -1),
+    crossing zero, all negative, step 2 - the shapes on which a range differs from the slice with the same start/stop/step"""
+    cand = [[a, a + 1] for a in range(0, top - 1)] + [[a + 1, a] for a in range(0, top - 1)] + [[a] for a in range(0, top)]
+    if top >= 2: cand += [[1, 0]] * 3
+    if n >= 1 and top >= 1: cand += [[-1, 0]] * 2
+    if n >= 2: cand += [[-2, -1], [-1, -2]]
+    if top >= 3: cand += [[0, 2], [2, 0]]
+    return list(r.choice(cand))
+ENC_SEGMENTS = [("scalar", 8), ("lists", 4), ("take", 3)]           # (segment, number of cases its encodings are dealt over)
+def gen_enc_case(rng, clsname, kind, seg, part=0, nparts=1):
+    """systematic sweep of index-argument ENCODINGS for one (class, axis kind): every axis has >= 2 entities and inserted blocks
+    have 2, so an index that reaches numpy in another form than the plain Python value (a scalar not wrapped into a list moves
+    axis 0 of the block, a narrow dtype overflows, a mask read as integers) changes cells, shape or raises.
+    scalar: insert/incorp then delete/remove with the index as a numpy integer scalar of EVERY width (int8..uint64) and as a 0-d array;
+    lists : the same operations with tuple / range / list of numpy scalars / ndarray of every fitting dtype / numpy mask /
+            Python list and tuple of bools;
+    take  : select / reorder with ndarray of every dtype / tuple / range / list of numpy scalars.
+    Operation of each pair (mutating or not) and form (axis-specific or generic, positive or negative axis) are drawn per step;
+    run_impl additionally runs the other form and the counterpart of every step on rebuilt copies.
+    The encodings of a segment are dealt over `nparts` short cases (a failing step ends the judgement of its history)."""
+    G = _Gen(rng, clsname, 0, "quick")
+    C = G.C; r = rng
+    ents = {n: list(range(r.choice([2, 3]))) for n in dict.fromkeys(free_names(C))}
+    full = r.random() < 0.7
+    present = {f: (full or r.random() < 0.6) for f in fields_of(C)}
+    for k in C["kinds"]: G.ensure(k, ents.get(k, []))
+    init = {"ents": ents, "present": present}
+    case = {"cls": clsname, "init": init, "ops": []}
+    if C.get("ploidy"): case["ploidy"] = r.choice([1, 2, 4])
+    S = spec_init(C, G.tab, init)
+    if C.get("ploidy"): S["ploidy"] = case["ploidy"]
+    sq = C["square"] and kind == "taxa"
+    inner = min(kind_axes(C, kind)) > 0
+    def n_(): return len(S["ents"][kind])
+    def push(k_pair, **kw):
+        """append one step (operation drawn from the pair) if the class allows it and the specification accepts it -> bool"""
+        nonlocal S
+        allowed = G.allowed(S, kind)
+        ks = [k for k in k_pair if k in allowed]
+        if not ks: return False
+        form, gax = G.form(kind)
+        op = dict({"k": r.choice(ks), "ax": kind, "form": form, "gax": gax}, **kw)
+        if C.get("bv") and not S.get("unit", True): op["nocp"] = True
+        try: T, _ = spec_step(C, G.tab, S, op)
+        except Invalid: return False
+        case["ops"].append(op); S = rebase_like_impl(C, T, op)
+        return True
+    def grow(obj, k):
+        if sq: return push(("adjoin", "append"), val=G.operand(S, kind, k, True, reuse_ok=False))
+        return push(("insert", "incorp"), obj=obj, val=G.operand(S, kind, k, True, reuse_ok=False))
+    def sc(dt, hi, how="np"):
+        lo = 0 if dt.startswith("u") else -n_()
+        return {"t": "int", "v": r.randrange(lo, hi), "e": "%s:%s" % (how, dt)}
+    def shrink_to(m):
+        while n_() > m:
+            if not push(("delete", "remove"), obj={"t": "int", "v": r.randrange(-n_(), n_())}): break
+    if seg == "scalar":
+        dts = list(INT_DTYPES); r.shuffle(dts)
+        for i, dt in enumerate(INT_DTYPES):
+            if i % nparts != part: continue
+            grow(sc(dt, n_() + 1), 2)
+            if n_() > 1: push(("delete", "remove"), obj=sc(dts[(i + 3) % 8], n_()))
+            if n_() > 1: push(("delete", "remove"), obj=sc(dts[(i + 5) % 8], n_(), "0d" if i % 2 else "np"))
+        if not sq and part % 2 == 0:
+            # a 0-d array index: like the int on the outermost axis; on an inner axis the known finding C03-zero-dim-index-insert-moveaxis (last step)
+            grow(sc(r.choice(INT_DTYPES), n_() + 1, "0d"), 2)
+    elif seg == "lists":
+        kinds = ["tuple", "range", "nplist", "mask", "lmask", "ltuple"] + ["dt:" + d for d in INT_DTYPES] + ["range", "range"]
+        kinds = kinds[part::nparts]; r.shuffle(kinds)
+        for e in kinds:
+            n = n_()
+            # insertion
+            if e in ("lmask", "ltuple"): pass                            # numpy.insert itself rejects Python sequences of bools
+            elif e == "mask":
+                pos = set(r.sample(range(n), min(n, 2)))
+                grow({"t": "mask", "v": [i in pos for i in range(n)]}, len(pos))
+            else:
+                m = r.choice([1, 2])
+                uns = e.startswith("dt:u")
+                if uns: m = 1                                              # numpy.insert itself fails on longer unsigned index arrays
+                v = [r.randrange(0 if uns else -n, n + 1) for _ in range(m)]
+                if e == "range": v = range_list(r, n, n + 1)
+                o = {"t": "list", "v": v, "e": e}
+                if e.startswith("dt:"): o["t"] = "array"
+                if e == "nplist": o["e"] = _nplist_enc(r, fitting_dtypes(v, n, signed_only=(len(v) != 1)))
+                grow(o, 2 if len(v) == 1 else len(v))
+            # deletion
+            n = n_()
+            if n < 2: continue
+            if e in ("mask", "lmask", "ltuple"):
+                pos = set(r.sample(range(n), r.choice([1, 1, max(1, n - 2)])))
+                o = {"t": "mask" if e == "mask" else "lmask", "v": [i in pos for i in range(n)]}
+                if e == "ltuple": o["e"] = "tuple"
+            else:
+                uns = e.startswith("dt:u")
+                v = [r.randrange(0 if uns else -n, n) for _ in range(r.choice([1, 2, 2]))]
+                if e == "range": v = range_list(r, n, n)
+                if len(set(x % n for x in v)) >= n: v = v[:1]
+                o = {"t": "list", "v": v, "e": e}
+                if e.startswith("dt:"): o["t"] = "array"
+                if e == "nplist": o["e"] = _nplist_enc(r, fitting_dtypes(v, n))
+            push(("delete", "remove"), obj=o)
+            shrink_to(4)
+    else:
+        iks = ["tuple", "range", "nplist"] + ["array:" + d for d in INT_DTYPES]
+        iks = iks[part::nparts]; r.shuffle(iks)
+        for ik in iks:
+            n = n_()
+            uns = ik.startswith("array:u")
+            for opn in ("select", "reorder"):
+                n = n_()
+                if opn == "reorder":
+                    if kind == "phase" or ik == "tuple": continue         # reorder documents an ndarray; `arr[tuple]` is a multi-axis index
+                    idx = list(range(n)); r.shuffle(idx)
+                    if not uns and r.random() < 0.5: idx = [i - n if r.random() < 0.4 else i for i in idx]
+                    if ik == "range": idx = list(range(n - 1, -1, -1)) if n > 1 else [0]
+                else:
+                    idx = [r.randrange(0 if uns else -n, n) for _ in range(r.choice([n, n, n + 1, max(2, n - 1)]))]
+                    if ik == "range": idx = r.choice([range_list(r, n, n), list(range(n)), list(range(n - 1, -1, -1)), list(range(-n, 0))])
+                ikk = _nplist_enc(r, fitting_dtypes(idx, n)) if ik == "nplist" else ik
+                push((opn,), idx=idx, ik=ikk)
+            shrink_to(4)
     case["tab"] = G.tab
     return case
 
@@ -1359,6 +1602,15 @@ def gen_cases(rng, tier):
     for j in range(2 if tier == "quick" else 12):
         for prot in ("masked_phased", "masked_unphased"):
             cases.append(gen_big_case(rng, "DensePhasedGenotypeMatrix", force=prot))
+    # systematic sweep of index-argument encodings: every class x labelled axis kind x segment
+    for j in range(1 if tier == "quick" else 6):
+        for cn in CLS_ORDER:
+            Cn = CLASSES[cn]
+            for kind in Cn["lkinds"]:
+                if Cn.get("bv") and kind != "taxa": continue          # trait-axis operations of breeding-value matrices: C15
+                for seg, nparts in ENC_SEGMENTS:
+                    for part in range(nparts):
+                        cases.append(gen_enc_case(rng, cn, kind, seg, part, nparts))
     audit_entry_points()
     return cases
 
@@ -1482,6 +1734,8 @@ def describe(case, out):
          "first_op": ops[0]["k"] if ops else "none",
          "last_op": ("%s/%s" % (ops[-1]["k"], ops[-1].get("form", "-"))) if ops else "none",
          "idx_kinds": ",".join(sorted({o["obj"]["t"] for o in ops if "obj" in o})) or "-",
+         "idx_encodings": ",".join(sorted({str(o["obj"].get("e", "plain")).split(":")[0] for o in ops if "obj" in o} |
+                                          {str(o["ik"]).split(":")[0] for o in ops if "ik" in o})) or "-",
          "error_kind": next((r["main"]["exc"] for r in steps if "exc" in r["main"]), "none")}
     return d
 
@@ -1591,6 +1845,10 @@ def emit_case(case, out):
                 # from the state before the copy; a copy that raises or alters the state shows up here / in the next step
                 if "exc" in rec["main"] or diff_snap(prev, rec["main"]): return "false"
                 continue
+            if op["k"] != "genotype" and zero_dim_inner(Cc, op):
+                # known finding C03-zero-dim-index-insert-moveaxis: the model's insert wraps every scalar index; the history is
+                # evaluated in Coq up to this step, the step itself is judged by the predicate (and by the finding's witness)
+                break
             hops.append(_hop(Cc, tab, op, prev))
             if "exc" in rec["main"]:
                 raised = True; break
